@@ -62,6 +62,10 @@ def instance(rng):
     b = rng.normal(size=m)
     lam = float(10 ** rng.uniform(-2.5, 0.7))
     x0 = rng.normal(size=n)
+    if rng.random() < 0.2:
+        # warm start from the UNREGULARISED fit of a consistent system: zero residual at x0, but F(x0) = h(x0) > F*
+        x0 = np.round(rng.normal(size=n), 1) + 0.5
+        b = A @ x0
     kind = "l1" if rng.random() < 0.5 else "l2"
     bounded = rng.random() < 0.5
     if bounded:
